@@ -320,4 +320,40 @@ example : (render (progOf [(.seq (.text ['a']) (.seq (.include_ 1) (.text ['z'])
                            (.seq (.text ['i']) (.expr .boom []), some false)] 0) ⟨none, false⟩ 100).1
     = .exc excBoom := by decide
 
+/-! ## the exception *object* that reaches the caller -/
+
+/-- **Unhandled, the original exception object propagates unchanged** – the very object (identity, class and
+    constructor arguments), whether or not its class derives from `Exception`: without `error_handler` and
+    `format_exceptions` nothing catches it; with an `error_handler` that returns a false value `_render_error`
+    re-raises the object found in `sys.exc_info()`, not the value it handed to the handler (which for a
+    `BaseException` outside `Exception` is only the *class*). -/
+theorem unhandled_same_object (e : ExcObj) (fe : Bool) :
+    (renderErrorObj ⟨none, false⟩ e).seen = .raised e ∧ (renderErrorObj ⟨some false, fe⟩ e).seen = .raised e := by
+  simp [renderErrorObj]
+
+/-- what the handler is given: the instance for an `Exception`, only the class otherwise (bare `except:`) -/
+theorem error_handler_argument (e : ExcObj) (b fe : Bool) :
+    (renderErrorObj ⟨some b, fe⟩ e).handlerArg = some (if e.isException then .inst e else .cls e.cls) ∧
+      ((renderErrorObj ⟨some b, fe⟩ e).seen = .returned ↔ b = true) ∧ (renderErrorObj ⟨some b, fe⟩ e).page = false := by
+  cases b <;> simp [renderErrorObj]
+
+/-- `format_exceptions` without a handler turns every exception – `BaseException`s included – into an error page -/
+theorem format_exceptions_catches_all (e : ExcObj) :
+    renderErrorObj ⟨none, true⟩ e = ⟨none, .returned, true⟩ := by
+  simp [renderErrorObj]
+
+/-- `_include_file`: the `include_error_handler` sees `Exception`s only; a false result (bare `raise`) and every
+    exception outside `Exception` propagate as the same object -/
+theorem include_error_handler_same_object (e : ExcObj) (b : Bool) :
+    (includeErrorObj none e).seen = .raised e ∧ (includeErrorObj (some false) e).seen = .raised e ∧
+      (e.isException = false → includeErrorObj (some b) e = ⟨none, .raised e, false⟩) ∧
+      (e.isException = true → (includeErrorObj (some true) e).seen = .returned) := by
+  refine ⟨by simp [includeErrorObj], ?_, ?_, ?_⟩
+  · cases h : e.isException <;> simp [includeErrorObj, h]
+  · intro h; simp [includeErrorObj, h]
+  · intro h; simp [includeErrorObj, h]
+
+example : (renderErrorObj ⟨some false, false⟩ ⟨1, 7, [302, 5], false⟩).handlerArg = some (.cls 1) ∧
+    (renderErrorObj ⟨some false, false⟩ ⟨1, 7, [302, 5], false⟩).seen = .raised ⟨1, 7, [302, 5], false⟩ := by decide
+
 end MakoModel.C13
